@@ -10,6 +10,14 @@ extern "C" {
 }
 typedef __int128 i128;
 typedef long double LD;
+#include <limits>
+typedef a_real R; // float or double build of the library
+static int const MANT = std::numeric_limits<R>::digits - 1;   // 52 / 23: integers below 2^MANT are exact with room for one more bit
+static int const EN = -std::numeric_limits<R>::min_exponent + 1; // 1022 / 126
+static R const EXACT_MAX = R(std::ldexp(1.0, MANT));
+// the strict-interior clause of the statement (1e-12 <= fc*ts <= 1e12) presupposes that 1 - 6e-12 and 1 + 6e12 are distinguishable
+// from 1 resp. infinity/zero in a_real; in the float build the window in which that is representable is asserted instead
+static LD const WIN_LO = sizeof(R) == 4 ? 1e-6L : 1e-12L, WIN_HI = sizeof(R) == 4 ? 1e5L : 1e12L;
 
 enum { L_TF, L_TF_ORDER2, L_TF_DEN_GT_NUM, L_TF_NUM_GT_DEN, L_TF_ORDER0, L_TF_ZERO_MID, L_TF_LINEAR, L_TF_DELAY, L_LPF, L_HPF, L_GEN, L_GEN_EXTREME_OPERAND, L_GEN_SATURATING, L_DYADIC, L_TF_STOPPED_MAGNITUDE, L_WIDE, L_TF_RECONFIGURED };
 static char const *const labels[] = {"tf", "tf_num_ge_2_and_den_ge_2", "tf_den_gt_num", "tf_num_gt_den", "tf_order_0_side", "tf_zero_mid_history", "tf_linearity", "tf_time_invariance",
@@ -21,11 +29,11 @@ extern "C" vp_info const *vp_get_info(void) { return &info; }
 
 struct Blk
 {
-    double *p;
+    R *p;
     size_t n;
     explicit Blk(size_t n_) : n(n_)
     {
-        p = (double *)malloc(sizeof(double) * (n ? n : 1)); // exact-size when n > 0 ; n == 0: a 1-double dummy never touched
+        p = (R *)malloc(sizeof(R) * (n ? n : 1)); // exact-size when n > 0 ; n == 0: a 1-R dummy never touched
         for (size_t i = 0; i < n; ++i) { p[i] = 12345.5; }
     }
     ~Blk() { free(p); }
@@ -54,7 +62,7 @@ struct Ref
             y -= i128(a[i]) * out[i];
             mag += (a[i] < 0 ? -i128(a[i]) : i128(a[i])) * (out[i] < 0 ? -out[i] : out[i]);
         }
-        if (mag >= (i128(1) << 52)) { ok = false; }
+        if (mag >= (i128(1) << MANT)) { ok = false; }
         if (!out.empty())
         {
             out.insert(out.begin(), y);
@@ -140,13 +148,13 @@ static void case_tf(Tape &t, Ctx &cx)
             ++cx.rep->excluded;
             return;
         }
-        double got = a_tf_iter(&f.ctx, double(x1[k]));
-        double gotm = fm.ctx(double(x1[k]));
-        VP_CHECK(cx, memcmp(&got, &gotm, 8) == 0, "tf:member_differs", "step %u: the member call operator returns %.17g, a_tf_iter %.17g", k, gotm, got);
+        R got = a_tf_iter(&f.ctx, R(x1[k]));
+        R gotm = fm.ctx(R(x1[k]));
+        VP_CHECK(cx, memcmp(&got, &gotm, sizeof(R)) == 0, "tf:member_differs", "step %u: the member call operator returns %.17g, a_tf_iter %.17g", k, gotm, got);
         y1[k] = want;
-        if (!(got == double(want)))
+        if (!(got == R(want)))
         {
-            cx.fail("tf:difference_equation", "step %u: a_tf_iter returned %.17g, the difference equation gives %.17g (num_n=%u den_n=%u%s)", k, got, double(want), nn, dn, (zero_at > 0 && k >= zero_at) ? ", after a_tf_zero" : "");
+            cx.fail("tf:difference_equation", "step %u: a_tf_iter returned %.17g, the difference equation gives %.17g (num_n=%u den_n=%u%s)", k, got, R(want), nn, dn, (zero_at > 0 && k >= zero_at) ? ", after a_tf_zero" : "");
         }
     }
     // (2) zero, then the same inputs again: must reproduce the response of a fresh filter
@@ -155,8 +163,8 @@ static void case_tf(Tape &t, Ctx &cx)
         TF fresh(b, a);
         for (unsigned k = 0; k < len; ++k)
         {
-            double g1 = a_tf_iter(&f.ctx, double(x2[k])), g2 = a_tf_iter(&fresh.ctx, double(x2[k]));
-            if (!std::isfinite(g2) || std::fabs(g2) > 4.5e15) { break; }
+            R g1 = a_tf_iter(&f.ctx, R(x2[k])), g2 = a_tf_iter(&fresh.ctx, R(x2[k]));
+            if (!std::isfinite(g2) || std::fabs(g2) > EXACT_MAX) { break; }
             if (!(g1 == g2)) { cx.fail("tf:zero_not_fresh", "after a_tf_zero step %u returns %.17g, a freshly initialised filter returns %.17g (num_n=%u den_n=%u)", k, g1, g2, nn, dn); }
         }
     }
@@ -168,10 +176,10 @@ static void case_tf(Tape &t, Ctx &cx)
         r1.a = r2.a = a;
         r1.in.assign(nn, 0); r1.out.assign(dn, 0);
         r2.in.assign(nn, 0); r2.out.assign(dn, 0);
-        std::vector<double> yd;
+        std::vector<R> yd;
         for (unsigned k = 0; k < delay; ++k)
         {
-            double g = a_tf_iter(&fd.ctx, 0.0);
+            R g = a_tf_iter(&fd.ctx, 0.0);
             VP_CHECK(cx, g == 0.0, "tf:nonzero_response_to_zero", "zero input from zero state gives %.17g", g);
         }
         bool ok2 = true;
@@ -180,15 +188,15 @@ static void case_tf(Tape &t, Ctx &cx)
             i128 w1 = r1.step(x1[k], ok2), w2 = r2.step(x2[k], ok2);
             i128 comb = i128(al) * w1 + i128(be) * w2;
             i128 cmag = (comb < 0 ? -comb : comb);
-            if (!ok2 || cmag >= (i128(1) << 50)) { break; }
-            double g1 = a_tf_iter(&f1.ctx, double(x1[k]));
-            double g2 = a_tf_iter(&f2.ctx, double(x2[k]));
-            double g3 = a_tf_iter(&f3.ctx, double(al * x1[k] + be * x2[k]));
-            double gd = a_tf_iter(&fd.ctx, double(x1[k]));
+            if (!ok2 || cmag >= (i128(1) << (MANT - 2))) { break; }
+            R g1 = a_tf_iter(&f1.ctx, R(x1[k]));
+            R g2 = a_tf_iter(&f2.ctx, R(x2[k]));
+            R g3 = a_tf_iter(&f3.ctx, R(al * x1[k] + be * x2[k]));
+            R gd = a_tf_iter(&fd.ctx, R(x1[k]));
             (void)g2;
             // the magnitude check above is on the references; the combined filter may exceed it a little earlier: stop when inexact
-            if (std::fabs(g3) > 4.5e15) { break; }
-            if (!(g3 == double(comb))) { cx.fail("tf:not_linear", "step %u: tf(%d*x1+%d*x2) = %.17g but %d*tf(x1)+%d*tf(x2) = %.17g", k, al, be, g3, al, be, double(comb)); }
+            if (std::fabs(g3) > EXACT_MAX) { break; }
+            if (!(g3 == R(comb))) { cx.fail("tf:not_linear", "step %u: tf(%d*x1+%d*x2) = %.17g but %d*tf(x1)+%d*tf(x2) = %.17g", k, al, be, g3, al, be, R(comb)); }
             if (!(gd == g1)) { cx.fail("tf:not_time_invariant", "step %u: input delayed by %u samples gives %.17g, undelayed response is %.17g", k, delay, gd, g1); }
             cx.label(L_TF_LINEAR);
             if (delay) { cx.label(L_TF_DELAY); }
@@ -232,14 +240,14 @@ static void case_tf(Tape &t, Ctx &cx)
             }
             i128 want = rr.step(x2[k], ok4);
             if (!ok4) { break; }
-            double got = a_tf_iter(&g.ctx, double(x2[k])), gotm = gm.ctx(double(x2[k]));
-            if (!(got == double(want))) { cx.fail("tf:set_num_den", "step %u (new %s of %u coefficients installed at step %u): a_tf_iter returned %.17g, the difference equation gives %.17g", k, which_den ? "denominator" : "numerator", nk, at, got, double(want)); }
-            VP_CHECK(cx, memcmp(&got, &gotm, 8) == 0, "tf:member_differs", "step %u after member set_%s: member path returns %.17g, C path %.17g", k, which_den ? "den" : "num", gotm, got);
+            R got = a_tf_iter(&g.ctx, R(x2[k])), gotm = gm.ctx(R(x2[k]));
+            if (!(got == R(want))) { cx.fail("tf:set_num_den", "step %u (new %s of %u coefficients installed at step %u): a_tf_iter returned %.17g, the difference equation gives %.17g", k, which_den ? "denominator" : "numerator", nk, at, got, R(want)); }
+            VP_CHECK(cx, memcmp(&got, &gotm, sizeof(R)) == 0, "tf:member_differs", "step %u after member set_%s: member path returns %.17g, C path %.17g", k, which_den ? "den" : "num", gotm, got);
         }
     }
 }
 
-static double gen_alpha(Tape &t, Ctx &cx, bool &dyadic)
+static R gen_alpha(Tape &t, Ctx &cx, bool &dyadic)
 {
     uint8_t c = t.u8() % 8;
     dyadic = false;
@@ -251,24 +259,24 @@ static double gen_alpha(Tape &t, Ctx &cx, bool &dyadic)
         unsigned m = 1 + t.u8() % 3;
         dyadic = true;
         cx.label(L_DYADIC);
-        return double(t.u8() % ((1u << m) + 1)) / double(1u << m); }
+        return R(t.u8() % ((1u << m) + 1)) / R(1u << m); }
     case 4: return std::ldexp(1.0, -int(t.u8() % 60));
     case 5: return 1.0 - std::ldexp(1.0, -int(1 + t.u8() % 52));
-    default: return double(t.u32()) / 4294967296.0;
+    default: return R(t.u32()) / 4294967296.0;
     }
 }
 
-static double ulp_of(double x)
+static R ulp_of(R x)
 {
     x = std::fabs(x);
-    if (x < 2.3e-308) { return 4.9e-324; }
-    return std::nextafter(x, INFINITY) - x;
+    if (x < std::numeric_limits<R>::min()) { return std::numeric_limits<R>::denorm_min(); }
+    return std::nextafter(x, std::numeric_limits<R>::infinity()) - x;
 }
 
 static void case_lpf(Tape &t, Ctx &cx)
 {
     bool dy;
-    double alpha = gen_alpha(t, cx, dy);
+    R alpha = gen_alpha(t, cx, dy);
     unsigned len = 1 + t.u8() % 24;
     bool ints = dy || t.coin();
     bool wide = !ints && t.coin(); // magnitudes from 1e-307 to 1e307, both signs
@@ -279,31 +287,35 @@ static void case_lpf(Tape &t, Ctx &cx)
     cx.hash.addd(alpha);
     cx.label(L_LPF);
     cx.log("lpf alpha=%.17g len=%u %s\n", alpha, len, ints ? "integer inputs" : "real inputs");
-    double lo = 0, hi = 0;
+    R lo = 0, hi = 0;
     cx.rep->nontrivial = alpha > 0 && alpha < 1;
     for (unsigned k = 0; k < len; ++k)
     {
-        double x = ints ? double(int(t.u16() % 2001) - 1000) : std::ldexp(double(int32_t(t.u32())) / 2147483648.0, wide ? int(t.u16() % 2041) - 1020 : int(t.u8() % 41) - 20);
+        R x = ints ? R(int(t.u16() % 2001) - 1000) : std::ldexp(R(int32_t(t.u32())) / 2147483648.0, wide ? int(t.u16() % unsigned(2 * EN - 3)) - (EN - 2) : int(t.u8() % 41) - 20);
         cx.hash.addd(x);
         if (x < lo) { lo = x; }
         if (x > hi) { hi = x; }
-        double before = f.output;
-        double y = a_lpf_iter(&f, x);
+        R before = f.output;
+        R y = a_lpf_iter(&f, x);
         {
-            double ym = fm(x);
-            VP_CHECK(cx, memcmp(&y, &ym, 8) == 0 && memcmp(&f, &fm, sizeof(f)) == 0, "lpf:member_differs", "step %u: member call operator gives %.17g, a_lpf_iter %.17g", k, ym, y);
+            R ym = fm(x);
+            VP_CHECK(cx, memcmp(&y, &ym, sizeof(R)) == 0 && memcmp(&f, &fm, sizeof(f)) == 0, "lpf:member_differs", "step %u: member call operator gives %.17g, a_lpf_iter %.17g", k, ym, y);
         }
         {
             // the documented difference equation, one step, evaluated in long double on the filter's own previous output
             LD want = (1 - (LD)alpha) * (LD)before + (LD)alpha * (LD)x;
-            double eqtol = 4 * ulp_of(std::fmax(std::fabs(before), std::fabs(x)));
+            R eqtol = 4 * ulp_of(std::fmax(std::fabs(before), std::fabs(x)));
             if (!(fabsl((LD)y - want) <= eqtol)) { cx.fail("lpf:difference_equation", "step %u: output %.17g, (1-alpha)*%.17g + alpha*%.17g = %.17Lg (alpha %.17g)", k, y, before, x, want, alpha); }
             if (alpha == 1.0) { VP_CHECK(cx, y == x, "lpf:alpha_one", "alpha = 1: output %.17g is not the newest sample %.17g", y, x); }
             if (alpha == 0.0) { VP_CHECK(cx, y == 0.0, "lpf:alpha_zero", "alpha = 0: output %.17g moved away from 0", y); }
         }
-        double scale = std::fmax(std::fabs(lo), std::fabs(hi));
-        double tol = (dy && ints && len <= 8) ? 0.0 : 4 * ulp_of(scale);
-        double excess = y < lo ? lo - y : y > hi ? y - hi : 0;
+        R scale = std::fmax(std::fabs(lo), std::fabs(hi));
+        // each step rounds three times (1 - alpha, the two products, the sum: <= 2.5 ulp of the larger operand) and the recurrence damps
+        // earlier errors by (1 - alpha): after k steps the output may leave the range of the inputs by at most 2.5 ulp * min(k, 1/alpha).
+        // (A 1 - alpha that is not exactly representable - the usual case in the float build - makes the fixed point c / (1 - delta/alpha).)
+        R acc = alpha > 0 ? std::fmin(R(k + 1), 1 / alpha) : R(1);
+        R tol = (dy && ints && len <= 8) ? 0.0 : 4 * ulp_of(scale) * acc;
+        R excess = y < lo ? lo - y : y > hi ? y - hi : 0;
         if (scale > 0) { cx.metric(0, excess / ulp_of(scale)); }
         if (!(y >= lo - tol && y <= hi + tol))
         {
@@ -313,22 +325,23 @@ static void case_lpf(Tape &t, Ctx &cx)
     }
     // constant input: monotone convergence, and it settles
     {
-        double c = ints ? double(int(t.u16() % 2001) - 1000) : std::ldexp(double(int32_t(t.u32() | 1)) / 2147483648.0, int(t.u8() % 41) - 20);
+        R c = ints ? R(int(t.u16() % 2001) - 1000) : std::ldexp(R(int32_t(t.u32() | 1)) / 2147483648.0, int(t.u8() % 41) - 20);
         a_lpf_zero(&f);
         VP_CHECK(cx, f.output == 0, "lpf:zero", "a_lpf_zero left output %.17g", f.output);
         fm.zero();
         VP_CHECK(cx, memcmp(&f, &fm, sizeof(f)) == 0, "lpf:member_differs", "member zero() and a_lpf_zero leave different states");
-        double prev = std::fabs(c);
-        double tol = 4 * ulp_of(c);
+        R prev = std::fabs(c);
+        R tol = 4 * ulp_of(c);
         LD remain = fabsl((LD)c);
         for (unsigned k = 0; k < 200; ++k)
         {
-            double y = a_lpf_iter(&f, c);
-            double d = std::fabs(c - y);
+            R y = a_lpf_iter(&f, c);
+            R d = std::fabs(c - y);
             remain *= (1 - (LD)alpha);
             if (!(d <= prev + tol)) { cx.fail("lpf:not_monotone", "constant input %.17g: |x - output| grew from %.17g to %.17g at step %u (alpha %.17g)", c, prev, d, k, alpha); }
-            if (!(d <= double(remain) + 2 * ulp_of(c) * (k + 2) + tol)) /* each step adds at most two roundings of size ulp(x)/2 */ { cx.fail("lpf:does_not_settle", "constant input %.17g: after %u steps |x - output| = %.17g, the recurrence gives %.17Lg (alpha %.17g)", c, k + 1, d, remain, alpha); }
-            VP_CHECK(cx, (y >= std::fmin(0.0, c) - tol) && (y <= std::fmax(0.0, c) + tol), "lpf:outside_range_of_inputs", "constant input %.17g: output %.17g leaves [0, x]", c, y);
+            if (!(d <= R(remain) + 2 * ulp_of(c) * (k + 2) + tol)) /* each step adds at most two roundings of size ulp(x)/2 */ { cx.fail("lpf:does_not_settle", "constant input %.17g: after %u steps |x - output| = %.17g, the recurrence gives %.17Lg (alpha %.17g)", c, k + 1, d, remain, alpha); }
+            R rtol = tol * (alpha > 0 ? std::fmin(R(k + 1), 1 / alpha) : R(1)); // accumulated rounding, see above
+            VP_CHECK(cx, (y >= std::fmin(R(0), c) - rtol) && (y <= std::fmax(R(0), c) + rtol), "lpf:outside_range_of_inputs", "constant input %.17g: output %.17g leaves [0, x]", c, y);
             prev = d;
         }
     }
@@ -337,7 +350,7 @@ static void case_lpf(Tape &t, Ctx &cx)
 static void case_hpf(Tape &t, Ctx &cx)
 {
     bool dy;
-    double alpha = gen_alpha(t, cx, dy);
+    R alpha = gen_alpha(t, cx, dy);
     a_hpf f;
     a_hpf_init(&f, alpha);
     a_hpf fm = f; // driven through the C++ member functions
@@ -346,48 +359,48 @@ static void case_hpf(Tape &t, Ctx &cx)
     bool ints = dy || t.coin();
     // a short arbitrary prefix, then a constant input
     unsigned pre = t.u8() % 6;
-    double last = 0, maxin = 0;
+    R last = 0, maxin = 0;
     for (unsigned k = 0; k < pre; ++k)
     {
-        double x = ints ? double(int(t.u16() % 2001) - 1000) : std::ldexp(double(int32_t(t.u32())) / 2147483648.0, int(t.u8() % 21) - 10);
+        R x = ints ? R(int(t.u16() % 2001) - 1000) : std::ldexp(R(int32_t(t.u32())) / 2147483648.0, int(t.u8() % 21) - 10);
         cx.hash.addd(x);
-        double ob = f.output, ib = f.input;
-        double y = a_hpf_iter(&f, x);
+        R ob = f.output, ib = f.input;
+        R y = a_hpf_iter(&f, x);
         {
-            double ym = fm(x);
-            VP_CHECK(cx, memcmp(&y, &ym, 8) == 0 && memcmp(&f, &fm, sizeof(f)) == 0, "hpf:member_differs", "prefix step %u: member call operator gives %.17g, a_hpf_iter %.17g", k, ym, y);
+            R ym = fm(x);
+            VP_CHECK(cx, memcmp(&y, &ym, sizeof(R)) == 0 && memcmp(&f, &fm, sizeof(f)) == 0, "hpf:member_differs", "prefix step %u: member call operator gives %.17g, a_hpf_iter %.17g", k, ym, y);
         }
         {
             LD want = (LD)alpha * ((LD)ob + (LD)x - (LD)ib);
-            double eqtol = 4 * ulp_of(std::fabs(ob) + std::fabs(x) + std::fabs(ib));
+            R eqtol = 4 * ulp_of(std::fabs(ob) + std::fabs(x) + std::fabs(ib));
             if (!(fabsl((LD)y - want) <= eqtol)) { cx.fail("hpf:difference_equation", "prefix step %u: output %.17g, alpha*(%.17g + %.17g - %.17g) = %.17Lg (alpha %.17g)", k, y, ob, x, ib, want, alpha); }
         }
         last = x;
         if (std::fabs(x) > maxin) { maxin = std::fabs(x); }
     }
-    double c = ints ? double(int(t.u16() % 2001) - 1000) : std::ldexp(double(int32_t(t.u32() | 1)) / 2147483648.0, int(t.u8() % 21) - 10);
+    R c = ints ? R(int(t.u16() % 2001) - 1000) : std::ldexp(R(int32_t(t.u32() | 1)) / 2147483648.0, int(t.u8() % 21) - 10);
     cx.hash.addd(c);
     if (std::fabs(c) > maxin) { maxin = std::fabs(c); }
     cx.log("hpf alpha=%.17g prefix %u then constant %.17g\n", alpha, pre, c);
     cx.rep->nontrivial = alpha > 0 && alpha < 1 && c != last;
     // rounding of (output + x) - input is relative to the magnitude of the inputs
-    double prevout = std::fabs(f.output);
-    double tol = 8 * ulp_of(std::fmax(maxin, prevout) * 4 + 1e-300);
-    double y0 = a_hpf_iter(&f, c);
+    R prevout = std::fabs(f.output);
+    R tol = 8 * ulp_of(std::fmax(maxin, prevout) * 4 + std::numeric_limits<R>::min());
+    R y0 = a_hpf_iter(&f, c);
     LD bound = fabsl((LD)y0);
-    double prev = std::fabs(y0);
+    R prev = std::fabs(y0);
     for (unsigned k = 0; k < 300; ++k)
     {
-        double y = a_hpf_iter(&f, c);
-        double ay = std::fabs(y);
+        R y = a_hpf_iter(&f, c);
+        R ay = std::fabs(y);
         bound *= (LD)alpha;
         if (!(ay <= prev + tol)) { cx.fail("hpf:not_decaying", "constant input %.17g: |output| grew from %.17g to %.17g at step %u (alpha %.17g)", c, prev, ay, k, alpha); }
-        if (alpha < 1 && !(ay <= double(bound) + tol / (1 - alpha) + tol)) { cx.fail("hpf:does_not_decay", "constant input %.17g: after %u steps |output| = %.17g, the recurrence gives %.17Lg (alpha %.17g)", c, k + 2, ay, bound, alpha); }
+        if (alpha < 1 && !(ay <= R(bound) + tol / (1 - alpha) + tol)) { cx.fail("hpf:does_not_decay", "constant input %.17g: after %u steps |output| = %.17g, the recurrence gives %.17Lg (alpha %.17g)", c, k + 2, ay, bound, alpha); }
         prev = ay;
     }
     // zero: afterwards the filter answers like a freshly initialised one (C and member forms)
     {
-        double z1 = 0.0;
+        R z1 = 0.0;
         for (unsigned k = 0; k < 2; ++k) { z1 = fm(c); }
         (void)z1;
         a_hpf_zero(&f);
@@ -396,47 +409,47 @@ static void case_hpf(Tape &t, Ctx &cx)
         a_hpf_init(&fresh, alpha);
         VP_CHECK(cx, memcmp(&f, &fresh, sizeof(f)) == 0, "hpf:zero_not_fresh", "a_hpf_zero leaves (output %.17g, input %.17g), a freshly initialised filter has (%.17g, %.17g)", f.output, f.input, fresh.output, fresh.input);
         VP_CHECK(cx, memcmp(&fm, &fresh, sizeof(f)) == 0, "hpf:member_differs", "member zero() leaves (output %.17g, input %.17g)", fm.output, fm.input);
-        double a1 = a_hpf_iter(&f, c), a2 = a_hpf_iter(&fresh, c);
-        VP_CHECK(cx, memcmp(&a1, &a2, 8) == 0, "hpf:zero_not_fresh", "first output after a_hpf_zero %.17g, fresh filter %.17g", a1, a2);
+        R a1 = a_hpf_iter(&f, c), a2 = a_hpf_iter(&fresh, c);
+        VP_CHECK(cx, memcmp(&a1, &a2, sizeof(R)) == 0, "hpf:zero_not_fresh", "first output after a_hpf_zero %.17g, fresh filter %.17g", a1, a2);
     }
 }
 
-static double gen_pos(Tape &t, Ctx &cx)
+static R gen_pos(Tape &t, Ctx &cx)
 {
     // positive doubles over the whole exponent range, incl. subnormals and near-max
     uint8_t c = t.u8() % 8;
-    double m = 1.0 + double(t.u32()) / 4294967296.0;
+    R m = 1.0 + R(t.u32()) / 4294967296.0;
     switch (c)
     {
     case 0: return std::ldexp(m, int(t.u8() % 41) - 20);
-    case 1: return std::ldexp(m, int(t.u16() % 2046) - 1022);
-    case 2: cx.label(L_GEN_EXTREME_OPERAND); return std::ldexp(m, -1022 - int(t.u8() % 52));
-    case 3: cx.label(L_GEN_EXTREME_OPERAND); return std::ldexp(m, 1022 - int(t.u8() % 40));
-    case 4: return double(1 + t.u16());
-    case 5: return 1.0 / double(1 + t.u16());
-    default: return std::ldexp(m, int(t.u16() % 601) - 300);
+    case 1: return std::ldexp(m, int(t.u16() % unsigned(2 * EN + 2)) - EN);
+    case 2: cx.label(L_GEN_EXTREME_OPERAND); return std::ldexp(m, -EN - int(t.u8() % unsigned(MANT)));
+    case 3: cx.label(L_GEN_EXTREME_OPERAND); return std::ldexp(m, EN - int(t.u8() % 40));
+    case 4: return R(1 + t.u16());
+    case 5: return 1.0 / R(1 + t.u16());
+    default: return std::ldexp(m, int(t.u16() % unsigned(EN / 2 + 1)) - EN / 4);
     }
 }
 
 static void case_gen(Tape &t, Ctx &cx)
 {
-    double fc = gen_pos(t, cx), ts;
+    R fc = gen_pos(t, cx), ts;
     if (t.coin())
     {
         // choose ts so that the product lands in the asserted window 1e-12 .. 1e12
-        LD target = powl(10.0L, LD(int(t.u8() % 241) - 120) / 10.0L);
+        LD target = powl(10.0L, LD(int(t.u8() % 241) - 120) / (sizeof(R) == 4 ? 20.0L : 10.0L));
         LD q = target / (LD)fc;
-        ts = double(q);
+        ts = R(q);
         if (!(ts > 0) || !std::isfinite(ts)) { ts = gen_pos(t, cx); }
     }
     else { ts = gen_pos(t, cx); }
-    if (std::fabs(std::log10(fc)) > 150 || std::fabs(std::log10(ts)) > 150) { cx.label(L_GEN_EXTREME_OPERAND); }
+    if (std::fabs(std::log10(fc)) > EN * 0.147 || std::fabs(std::log10(ts)) > EN * 0.147) { cx.label(L_GEN_EXTREME_OPERAND); }
     cx.hash.addd(fc);
     cx.hash.addd(ts);
     cx.label(L_GEN);
     cx.rep->nontrivial = true;
     LD prod = (LD)fc * (LD)ts; // long double has the exponent range for every pair of doubles
-    double al = a_lpf_gen(fc, ts), ah = a_hpf_gen(fc, ts);
+    R al = a_lpf_gen(fc, ts), ah = a_hpf_gen(fc, ts);
     {
         a_lpf ml;
         a_hpf mh;
@@ -444,20 +457,20 @@ static void case_gen(Tape &t, Ctx &cx)
         memset(&mh, 0, sizeof(mh));
         ml.gen(fc, ts);
         mh.gen(fc, ts);
-        VP_CHECK(cx, memcmp(&ml.alpha, &al, 8) == 0, "lpf_gen:member_differs", "member gen(%.17g, %.17g) sets alpha %.17g, a_lpf_gen gives %.17g", fc, ts, ml.alpha, al);
-        VP_CHECK(cx, memcmp(&mh.alpha, &ah, 8) == 0, "hpf_gen:member_differs", "member gen(%.17g, %.17g) sets alpha %.17g, a_hpf_gen gives %.17g", fc, ts, mh.alpha, ah);
+        VP_CHECK(cx, memcmp(&ml.alpha, &al, sizeof(R)) == 0, "lpf_gen:member_differs", "member gen(%.17g, %.17g) sets alpha %.17g, a_lpf_gen gives %.17g", fc, ts, ml.alpha, al);
+        VP_CHECK(cx, memcmp(&mh.alpha, &ah, sizeof(R)) == 0, "hpf_gen:member_differs", "member gen(%.17g, %.17g) sets alpha %.17g, a_hpf_gen gives %.17g", fc, ts, mh.alpha, ah);
     }
     cx.log("gen fc=%.17g ts=%.17g product=%.6Lg -> lpf %.17g hpf %.17g\n", fc, ts, prod, al, ah);
     LD tau = 6.283185307179586476925286766559L;
     LD rl = 1 / (1 + 1 / (tau * prod)), rh = 1 / (tau * prod + 1);
     VP_CHECK(cx, al >= 0 && al <= 1, "lpf_gen:outside_unit_interval", "a_lpf_gen(%.17g, %.17g) = %.17g is outside [0,1]", fc, ts, al);
     VP_CHECK(cx, ah >= 0 && ah <= 1, "hpf_gen:outside_unit_interval", "a_hpf_gen(%.17g, %.17g) = %.17g is outside [0,1]", fc, ts, ah);
-    if (prod >= 1e-12L && prod <= 1e12L)
+    if (prod >= WIN_LO && prod <= WIN_HI)
     {
-        VP_CHECK(cx, al > 0 && al < 1, "lpf_gen:not_strictly_inside", "a_lpf_gen(%.17g, %.17g) = %.17g although fc*ts = %.6Lg lies in [1e-12, 1e12]", fc, ts, al, prod);
-        VP_CHECK(cx, ah > 0 && ah < 1, "hpf_gen:not_strictly_inside", "a_hpf_gen(%.17g, %.17g) = %.17g although fc*ts = %.6Lg lies in [1e-12, 1e12]", fc, ts, ah, prod);
-        LD el = fabsl(al - rl) / (LD)ulp_of(double(rl)), eh = fabsl(ah - rh) / (LD)ulp_of(double(rh));
-        cx.metric(1, double(el > eh ? el : eh));
+        VP_CHECK(cx, al > 0 && al < 1, "lpf_gen:not_strictly_inside", "a_lpf_gen(%.17g, %.17g) = %.17g although fc*ts = %.6Lg lies in the asserted window", fc, ts, al, prod);
+        VP_CHECK(cx, ah > 0 && ah < 1, "hpf_gen:not_strictly_inside", "a_hpf_gen(%.17g, %.17g) = %.17g although fc*ts = %.6Lg lies in the asserted window", fc, ts, ah, prod);
+        LD el = fabsl(al - rl) / (LD)ulp_of(R(rl)), eh = fabsl(ah - rh) / (LD)ulp_of(R(rh));
+        cx.metric(1, R(el > eh ? el : eh));
         VP_CHECK(cx, el <= 4, "lpf_gen:formula", "a_lpf_gen(%.17g, %.17g) = %.17g, ts/(1/(2 pi fc)+ts) = %.17Lg (%.2Lg ulp)", fc, ts, al, rl, el);
         VP_CHECK(cx, eh <= 4, "hpf_gen:formula", "a_hpf_gen(%.17g, %.17g) = %.17g, 1/(2 pi fc ts+1) = %.17Lg (%.2Lg ulp)", fc, ts, ah, rh, eh);
     }
